@@ -20,6 +20,8 @@ RULES = {
     "C06-A4": "copy(): the copied container paths are exactly those Mesh.__init__ exposes, each deepcopy(mesh.<same path>); nothing of the source is assigned by reference",
     "C06-A5": "merge(): the vertices added to the result are fresh objects; all index kinds are shifted by one running offset initialised to 0 and advanced by len(vertices) after its uses",
     "C06-A6": "translate/rotate/scale/scale_xyz: one store per vertex in one unguarded loop over id_vertices, right-hand side fresh, no augmented assignment on a stored vector",
+    "C06-F1": "the value stored for a vertex is exactly the requested affine map of its old position: P + t, O + f (P - O), O + R(P - O), "
+              "O + diag(fx, fy, fz)(P - O) (polynomial identity over the atoms P, O, t, f)",
     "C06-N1": "normalize(): centred variant = translate(-center) then scale(2/max span); anchored variant = translate(-mini) then scale(1/max span)",
     "C06-V1": "fact: whether Vec(x) aliases x (np.asarray(...).view) - the freshness grammar is derived from it",
 }
@@ -37,6 +39,7 @@ def run(ctx):
     a5_merge(ctx, fr)
     a6_transforms(ctx, fr)
     n1_normalize(ctx)
+    f1_transform_formulas(ctx)
 
 
 def a4_copy(ctx):
@@ -322,3 +325,70 @@ def n1_normalize(ctx):
               "documented: centred at the origin with largest extent 2, i.e. translate(-center) then scale(2 / max span)")
     ctx.check(norm(a) == norm(want_a), "C06-N1", site, f"normalize(center_at_zero=False) applies translate/scale with {a}",
               "documented: anchored at the origin with largest extent 1, i.e. translate(-mini) then scale(1 / max span)")
+
+
+def f1_transform_formulas(ctx):
+    repo = ctx.repo
+    P = sym.Poly
+
+    def stored(fn):
+        mesh = au.params(fn)[0]
+        b = sym.Bindings(fn)
+        for st in au.stmts(fn.body):
+            if isinstance(st, ast.Assign) and isinstance(st.targets[0], ast.Subscript) and au.src(st.targets[0].value) == f"{mesh}.vertices":
+                i = au.src(st.targets[0].slice)
+                return st, b.resolve(st.value, at=st, keep=tuple(au.params(fn)) + (i,)), mesh, i
+        return None, None, mesh, None
+    # translate: P + tr
+    fn = repo.func(TR, "translate")
+    st, v, mesh, i = stored(fn)
+    tr = au.params(fn)[1]
+    ok = False
+    if v is not None:
+        p = sym.to_poly(v, atom_of=lambda e: "P" if au.src(e) == f"{mesh}.vertices[{i}]" else None)
+        ok = p == P.atom("P") + P.atom(tr)
+    ctx.check(ok, "C06-F1", ctx.site(TR, fn), "translate does not store P + tr", "translate(t) then translate(-t) must restore the coordinates",
+              note="P + t")
+    # scale: O + f*(P - O)
+    fn = repo.func(TR, "scale")
+    st, v, mesh, i = stored(fn)
+    f, o = au.params(fn)[1:3]
+    ok = False
+    if v is not None:
+        p = sym.to_poly(v, atom_of=lambda e: "P" if au.src(e) == f"{mesh}.vertices[{i}]" else None)
+        ok = p == P.atom(o) + P.atom(f) * (P.atom("P") - P.atom(o))
+    ctx.check(ok, "C06-F1", ctx.site(TR, fn), "scale does not store O + factor * (P - O)", "scaling about O must fix O and scale offsets by the factor",
+              note="O + f (P - O)")
+    # rotate: O + R(P - O)
+    fn = repo.func(TR, "rotate")
+    st, v, mesh, i = stored(fn)
+    o = au.params(fn)[2]
+    ok = False
+    if isinstance(v, ast.BinOp) and isinstance(v.op, ast.Add):
+        sides = [v.left, v.right]
+        call = next((x for x in sides if isinstance(x, ast.Call) and au.call_tail(x) == "apply"), None)
+        other = next((x for x in sides if x is not call), None)
+        if call is not None and other is not None and au.src(other) == o and len(call.args) == 1:
+            p = sym.to_poly(call.args[0], atom_of=lambda e: "P" if au.src(e) == f"{mesh}.vertices[{i}]" else None)
+            ok = p == P.atom("P") - P.atom(o)
+    ctx.check(ok, "C06-F1", ctx.site(TR, fn), "rotate does not store O + R(P - O)", "rotating about O must fix O; rotate(R) then rotate(R^-1) must restore the coordinates",
+              note="O + R(P - O)")
+    # scale_xyz: O + Vec(fx*(P.x - O.x), fy*(P.y - O.y), fz*(P.z - O.z))
+    fn = repo.func(TR, "scale_xyz")
+    st, v, mesh, i = stored(fn)
+    ps = au.params(fn)
+    fx, fy, fz, o = ps[1:5]
+    ok = False
+    if isinstance(v, ast.BinOp) and isinstance(v.op, ast.Add):
+        sides = [v.left, v.right]
+        vec = next((x for x in sides if isinstance(x, ast.Call) and au.call_tail(x) == "Vec" and len(x.args) == 3), None)
+        other = next((x for x in sides if x is not vec), None)
+        if vec is not None and au.src(other) == o:
+            good = 0
+            for comp, fac, arg in zip("xyz", (fx, fy, fz), vec.args):
+                amap = {f"{mesh}.vertices[{i}].{comp}": "P", f"{o}.{comp}": "O"}
+                p = sym.to_poly(arg, atom_of=lambda e, _a=amap: _a.get(au.src(e)))
+                good += p == P.atom(fac) * (P.atom("P") - P.atom("O"))
+            ok = good == 3
+    ctx.check(ok, "C06-F1", ctx.site(TR, fn), "scale_xyz does not store O + (fx (P.x - O.x), fy (P.y - O.y), fz (P.z - O.z))", "",
+              note="axis-wise scaling about O")
